@@ -269,7 +269,7 @@ def _validate_compactors(trace, timeout=900):
     res = vlib.run_tlc(d, "CompactorsTrace", "CompactorsTrace.cfg", workers=1, dfs_queue=True, timeout=timeout, deadlock=True)
     if res.ok:
         return True, None, None, res
-    out = res.error_trace or res.out
+    out = (res.out or "") + "\n" + (res.error_trace or "")
     ls = re.findall(r"\bl = (\d+)", out)
     line = int(ls[-1]) - 1 if ls else None
     if res.violation == "Conforms":
